@@ -348,16 +348,21 @@ CHECKS = {
             "tree on every hypervolume case; proved about it: hvC_setup_filter and hvC_le_one_point in EVERY dimension (the lists after setup_cdllist+filter are the sorted orders restricted to the "
             "points strictly below the reference; n==0 / n==1), hvC_base_dim1/dim2/dim3 and hvC_eq_hvCells_partial / hvC_eq_volume_partial / hvC_total_partial for 1, 2 and 3 objectives (all inputs), "
             "hvC_base_dim3_fresh (the AVL-tree sweep on any well-formed list, entered with bound[2] = -DBL_MAX), hvC_staircase_area / hvC_staircase_update (the strip sum and the update formula "
-            "l.955-982). UNPROVED and kept visible: hvC_eq_hvCells_Statement, hvC_total_Statement for >= 4 objectives (general case of hv_recursive, re-entered 3-D base case: correspondence only). "
+            "l.955-982); and for EVERY number of objectives hvC_eq_hvCells / hvC_eq_hvCells_all / hvC_eq_volume / hvC_total (all inputs, also points beyond the reference, which filter drops; totality = no loop runs out of fuel): induction over the levels of hv_recursive "
+            "with the level contract HvC.InvC / PostC (Lemmas/C15HvCInv.lean: lists = static orders restricted to the present nodes, area/vol caches below bound[i] = hypervolume of the prefix, "
+            "ignore marks witnessed by a dominating present node, cached domr below bound[2] = third coordinate from which the node is beaten in the 2-D staircase) - hvC_dim3_reentry (the 3-D base "
+            "case entered with ANY bound[2]: staircase rebuilt from the nodes with domr >= bound[2], cached vol/area of the last node below the bound, sweep of the rest; Lemmas/C15HvCRe*), "
+            "hvC_general_step (reset, deletion to the bound with delete/delete_dom, cached start, reinsertion with reinsert/reinsert_dom, promotion of marks; Lemmas/C15HvCGen*), hvC_levels, "
+            "hvC_eq_hvCells_dim4. The two statements that were kept visible as unproved until round 7 (hvC_eq_hvCells_Statement, hvC_total_Statement) are now theorems; nothing about the transcription is open. "
             "The dimension-sweep implementations (_hv.c rebuilt from the working tree on every run, pyhv.py) and the two wrappers "
             "with both backends are diffed against hvSlice on exactly representable inputs (exhaustive small domain, every permutation for <=5 points, tie-heavy d<=7), on "
             "general-position doubles (1e-12 relative against the exact Rat measure of the doubles' exact values), and under every calling convention (lists, tuples, int "
             "arrays, the same array twice, zero reference); an independent inclusion-exclusion oracle checks every answer.",
-            TB + "partial: the proof covers the specification, the wrappers, pyhv's algorithm in every dimension and the transcription of _hv.c for <= 3 objectives; that pyhv.py executes its "
+            TB + "partial: the proof covers the specification, the wrappers, and BOTH algorithms in every dimension (the transcriptions of pyhv.py and of _hv.c); that pyhv.py executes its "
             "transcription is the value-and-state correspondence, that the extension executes Core/HvC.lean is the value correspondence (the transcription's internal state - list orders, ignore, "
             "area, vol, bound, domr, calls - was validated once against an instrumented build on 50 000 tie-heavy cases, it is not part of the check because a value-preserving refactoring of the C "
-            "code must not raise an alarm); for >= 4 objectives the C algorithm is validated, not verified; the AVL library is abstracted to an ordered sequence; qsort is modelled as a stable sort "
-            "(glibc: merge sort; the value does not depend on the order of ties). IEEE products of the dyadic test inputs are exact "
+            "code must not raise an alarm); the AVL library is abstracted to an ordered sequence; qsort is modelled as a stable sort "
+            "(glibc: merge sort; the proofs only use that each list is a sorted permutation). IEEE products of the dyadic test inputs are exact "
             "(checked per case); C compiler, extension loading, numpy.argmax/max trusted.",
             "Lean 4 proof (Mathlib measure theory) over a specification-level model and two transcribed algorithms + differential correspondence of two implementations + oracle"),
     "C18": ("full",
